@@ -42,39 +42,44 @@ def section(text, title_re):
     m = re.search(r"^#+\s*(%s)[^\n]*\n(.*?)(?=^#+\s|\Z)" % title_re, text, re.S | re.M | re.I)
     return re.sub(r"\s+", " ", m.group(2)).strip()[:900] if m else ""
 
-for d in sorted(glob.glob(os.path.join(ROOT, "seeded", "*"))):
-    if not os.path.isdir(d):
-        continue
-    name = os.path.basename(d)
-    prop, leg, added = DETECT.get(name, (name.split("_")[0], "", ""))
-    notes = open(os.path.join(d, "notes.md")).read() if os.path.exists(os.path.join(d, "notes.md")) else ""
-    title = re.sub(r"^#+\s*", "", notes.split("\n")[0]).strip() if notes else ""
-    conf = {}
-    cl = os.path.join(d, "confirm.log")
-    if os.path.exists(cl):
-        t = open(cl).read()
-        parts = re.split(r"^== ", t, flags=re.M)
-        for p in parts:
-            if p.startswith("demo WITHOUT"):
-                conf["demo_without_change"] = "passes" if re.search(r"test result: ok\. [1-9]", p) and "FAILED" not in p else "see confirm.log"
-            elif p.startswith("demo WITH"):
-                conf["demo_with_change"] = "fails" if ("FAILED" in p or "failed" in p) else "see confirm.log"
-            elif p.startswith("suite WITH"):
-                conf["suite_with_change"] = "141 passed, 20 doc tests passed" if "141 passed; 0 failed" in p and "20 passed; 0 failed" in p else "see confirm.log"
-        if "PATCH DOES NOT APPLY" in t:
-            conf["note"] = "patch does not apply to the current HEAD (written against an earlier base)"
-    meta = {
-        "id": name,
-        "property": prop,
-        "origin": "reverse of a fix commit found by this framework" if name.startswith("F") else "fresh sub-agent given only the property text and a scratch worktree",
-        "what": title or added,
-        "needs_to_manifest": section(notes, r"What is needed|What it needs|Needed") if notes else added,
-        "ran": ["bin/confirm_seed seeded/%s  (scratch worktree under /tmp: demo without / with the change, unedited suite with the change)" % name,
-                "bin/seedtest seeded/%s/patch.diff %s  (git apply in /repo, bin/check %s --tier quick, git reset --hard)" % (name, prop, prop)],
-        "independent_confirmation": conf,
-        "detected_by": leg,
-        "machinery_added_for_it": added,
-        "seedtest_result": RESULTS.get(name, ""),
-    }
-    json.dump(meta, open(os.path.join(d, "meta.json"), "w"), indent=1)
-print("meta.json written for", len(glob.glob(os.path.join(ROOT, "seeded", "*", "meta.json"))), "seeds")
+def main():
+  for d in sorted(glob.glob(os.path.join(ROOT, "seeded", "*"))):
+      if not os.path.isdir(d):
+          continue
+      name = os.path.basename(d)
+      prop, leg, added = DETECT.get(name, (name.split("_")[0], "", ""))
+      notes = open(os.path.join(d, "notes.md")).read() if os.path.exists(os.path.join(d, "notes.md")) else ""
+      title = re.sub(r"^#+\s*", "", notes.split("\n")[0]).strip() if notes else ""
+      conf = {}
+      cl = os.path.join(d, "confirm.log")
+      if os.path.exists(cl):
+          t = open(cl).read()
+          parts = re.split(r"^== ", t, flags=re.M)
+          for p in parts:
+              if p.startswith("demo WITHOUT"):
+                  conf["demo_without_change"] = "passes" if re.search(r"test result: ok\. [1-9]", p) and "FAILED" not in p else "see confirm.log"
+              elif p.startswith("demo WITH"):
+                  conf["demo_with_change"] = "fails" if ("FAILED" in p or "failed" in p) else "see confirm.log"
+              elif p.startswith("suite WITH"):
+                  conf["suite_with_change"] = "141 passed, 20 doc tests passed" if "141 passed; 0 failed" in p and "20 passed; 0 failed" in p else "see confirm.log"
+          if "PATCH DOES NOT APPLY" in t:
+              conf["note"] = "patch does not apply to the current HEAD (written against an earlier base)"
+      meta = {
+          "id": name,
+          "property": prop,
+          "origin": "reverse of a fix commit found by this framework" if name.startswith("F") else "fresh sub-agent given only the property text and a scratch worktree",
+          "what": title or added,
+          "needs_to_manifest": section(notes, r"What is needed|What it needs|Needed") if notes else added,
+          "ran": ["bin/confirm_seed seeded/%s  (scratch worktree under /tmp: demo without / with the change, unedited suite with the change)" % name,
+                  "bin/seedtest seeded/%s/patch.diff %s  (git apply in /repo, bin/check %s --tier quick, git reset --hard)" % (name, prop, prop)],
+          "independent_confirmation": conf,
+          "detected_by": leg,
+          "machinery_added_for_it": added,
+          "seedtest_result": RESULTS.get(name, ""),
+      }
+      json.dump(meta, open(os.path.join(d, "meta.json"), "w"), indent=1)
+  print("meta.json written for", len(glob.glob(os.path.join(ROOT, "seeded", "*", "meta.json"))), "seeds")
+
+
+if __name__ == "__main__":
+    main()
